@@ -112,6 +112,16 @@ class _Renamer(ast.NodeTransformer):
         return node
 
 
+class VMaybeUnbound(V):
+    """a local that only the body of a contract-governed loop binds: unbound while no iteration has run, unknown afterwards"""
+
+    def __init__(self, name, is_for):
+        self.name, self.is_for = name, is_for
+
+    def __repr__(self):
+        return f"<maybe-unbound {self.name}>"
+
+
 class VPoison(V):
     """value of a variable that a loop may have changed and whose type pyvc cannot havoc: any use is outside the subset"""
 
@@ -304,6 +314,21 @@ class ContractSet:
             for f, ft in self.class_fields(cls).items():
                 o.fields[f] = self.make(I, ft, f"{name}.{f}", depth + 1)
             o.meta["init_fields"] = dict(o.fields)
+            # attributes that the constructors set but the contract does not describe exist with an arbitrary value
+            # (not an AttributeError); they are outside the frame condition
+            from .values import VAny
+            for kc in cls.mro():
+                init = kc.methods.get("__init__") if not kc.builtin else None
+                if init is None or not init.args.args:
+                    continue
+                me = init.args.args[0].arg
+                for n_ in ast.walk(init):
+                    tg = n_.targets if isinstance(n_, ast.Assign) else [n_.target] if isinstance(n_, (ast.AnnAssign, ast.AugAssign)) else []
+                    for t_ in tg:
+                        for a_ in ([t_] if not isinstance(t_, ast.Tuple) else t_.elts):
+                            if isinstance(a_, ast.Attribute) and isinstance(a_.value, ast.Name) and a_.value.id == me and a_.attr not in o.fields:
+                                o.fields[a_.attr] = VAny(f"{cls.name}.{a_.attr}")
+                                o.meta.setdefault("undeclared", set()).add(a_.attr)
             return ref
         if typ.startswith("set:"):
             # finite universe: all members of an enum
@@ -735,7 +760,7 @@ class ContractSet:
                 init = o.meta["init_fields"]
                 nm = o.meta["name"]
                 for f in set(init) | set(o.fields):
-                    if self.lvalue_matches(mods, nm, f):
+                    if self.lvalue_matches(mods, nm, f) or f in o.meta.get("undeclared", ()):
                         continue
                     a, b = init.get(f), o.fields.get(f)
                     if a is b:
@@ -1123,6 +1148,9 @@ class ContractSet:
                 fr.locals[n] = self.make(I, hav_types[n], n)
             else:
                 fr.locals[n] = self.fresh_like(I, pre_vals[n], n)
+        for n in sorted(body_names):
+            if n not in fr.locals and n not in lc.get("ghost_init", {}) and n != "_i":
+                fr.locals[n] = VMaybeUnbound(n, is_for)
         hav_lvs = []
         for lv in lc.get("modifies", []):
             tgt = c.expr(lv)
